@@ -209,7 +209,8 @@ class Ctx:
         self.seed = seed
         self.rng = random.Random(f'{prop}:{seed}')
         self.t0 = time.time()
-        self.work = os.path.join(WORK, prop)
+        # one scratch directory per process: concurrent runs of the same check must not share generated files
+        self.work = os.path.join(WORK, prop, str(os.getpid()))
         os.makedirs(self.work, exist_ok=True)
         self.evaluations = 0
         self._nontrivial: set[str] = set()
